@@ -292,6 +292,13 @@ class Ctx:
                                     subj = Terms._phi(list(ra))
                                     if any(a[1] == "?" for a in ra):
                                         subj = Terms._phi(list(ra) + [("agg", "?", "None", ())])
+                if self.assumptions and self.level < 2 and subj[0] in ("field", "payload") and any(s_[0] == "call" and _callee_body(self.prog, s_) is not None for s_ in subterms(subj)):
+                    # e.g. `if let Some(x) = validated_update.native_chain_config`: the value comes out of
+                    # a local helper — evaluate it in this world
+                    rs = resolve_terms(self.prog, subj, 2, None, self.assumptions)
+                    ra = rs[1] if rs[0] == "phi" else (rs,)
+                    if all(a[0] == "agg" for a in ra):
+                        subj = rs
                 av = self._assumed_variant(subj)
                 if av is not None and av in atom[2]:
                     good = atom[2][av]
